@@ -123,7 +123,11 @@ pub fn oracle_c05(scn: &E3Scn, d: &D3, out: &RunOut, stats: &mut Stats) -> Vec<V
     let stop_sig = scn.stop_sig_no();
     let busy_sig = scn.busy_sig_no();
     // signals sent to watchexec itself that the CLI passes on to the command
-    let forwarded: Vec<i32> = scn.steps.iter().filter_map(|s| if let E3Kind::Signal { sig } = s.kind { Some(sig) } else { None }).collect();
+    // (--map-signal: passed on as the mapped signal, or discarded)
+    let forwarded: Vec<i32> = scn.steps.iter().filter_map(|s| if let E3Kind::Signal { sig } = s.kind { scn.passed_on_as(sig) } else { None }).collect();
+    if !scn.map_signals.is_empty() {
+        stats.hit("probe:map-signal");
+    }
     if !forwarded.is_empty() {
         stats.hit("probe:signal-forwarded-to-command");
     }
@@ -302,6 +306,13 @@ pub fn oracle_c05(scn: &E3Scn, d: &D3, out: &RunOut, stats: &mut Stats) -> Vec<V
 /// configured stop signal and timeout, and nothing survives.
 pub fn oracle_cli_quit(scn: &E3Scn, d: &D3, out: &RunOut, stats: &mut Stats) -> Vec<Violation> {
     let mut vs = Vec::new();
+    // nothing but the final interrupt / terminate asks watchexec to stop (mapped ones do not)
+    if let Some((mt, mseq, _, msg)) = &d.main_end {
+        if *mseq < d.q.1 {
+            vs.push(Violation::new("main-ended-without-quit-signal", "cli", format!("main ended at t={mt} ({msg}) before any unmapped interrupt or terminate signal was sent")));
+            return vs;
+        }
+    }
     let Some((ft, fseq)) = d.final_sent else { return vs };
     let stop_sig = scn.stop_sig_no();
     let timeout = scn.stop_timeout_ms;
@@ -459,7 +470,36 @@ pub fn gen_cli(rng: &mut Rng) -> E3Scn {
         children,
         steps,
         final_signal: *rng.pick(&[2, 15]),
+        map_signals: vec![],
     }
+}
+
+/// `--map-signal`: one of interrupt / terminate is mapped (passed on as another signal, as itself, or discarded) and
+/// arrives in mid-run without quitting; the other one, unmapped, ends the run. Plus a mapped ordinary signal.
+pub fn gen_cli_mapped(rng: &mut Rng) -> E3Scn {
+    let mut s = gen_cli(rng);
+    s.family = "cli-mapped".into();
+    let reserved = [s.stop_sig_no(), s.busy_sig_no()];
+    let free: Vec<&str> = ["HUP", "USR1", "USR2", "QUIT"].into_iter().filter(|n| !reserved.contains(&sig_no(n))).collect();
+    let (mapped_quit, other) = if rng.chance(1, 2) { ("INT", 15) } else { ("TERM", 2) };
+    let to: Option<String> = match rng.below(4) {
+        0 => None,
+        1 if !reserved.contains(&sig_no(mapped_quit)) => Some(mapped_quit.to_string()),
+        _ => free.first().map(|n| n.to_string()),
+    };
+    s.map_signals = vec![(mapped_quit.to_string(), to)];
+    if free.len() >= 2 && rng.chance(1, 2) {
+        s.map_signals.push((free[1].to_string(), if rng.chance(1, 3) { None } else { Some(free[0].to_string()) }));
+    }
+    s.final_signal = other;
+    // the mapped quit signal (and possibly the mapped ordinary one) arrive while the command runs
+    let at = rng.below(s.steps.len() as u64 + 1) as usize;
+    s.steps.insert(at, E3Step { gap: *rng.pick(&[0u64, 1, 20, 300]), kind: E3Kind::Signal { sig: sig_no(mapped_quit) } });
+    if s.map_signals.len() > 1 && rng.chance(1, 2) {
+        let at = rng.below(s.steps.len() as u64 + 1) as usize;
+        s.steps.insert(at, E3Step { gap: *rng.pick(&[0u64, 5, 100]), kind: E3Kind::Signal { sig: sig_no(free[1]) } });
+    }
+    s
 }
 
 /// changes placed exactly at child transitions (exit of the current run, start of the follow-up)
@@ -610,6 +650,7 @@ impl Check for C05 {
         Some(match idx % 4 {
             3 => gen_cli_race(rng),
             2 => gen_cli_delay(rng),
+            1 if idx % 8 == 5 => gen_cli_mapped(rng),
             _ => gen_cli(rng),
         })
     }
@@ -642,6 +683,7 @@ impl Check for C05 {
     }
     fn required_probes(&self, _tier: Tier) -> Vec<&'static str> {
         vec![
+            "probe:map-signal",
             "probe:mode-do-nothing",
             "probe:mode-queue",
             "probe:mode-restart",
